@@ -378,9 +378,18 @@ def _resolve_active_scope(
     )
 
 
-def _get_interrupt_outputs(nodes: dict[str, HyperNode]) -> set[str]:
-    """Get output names produced by interrupt nodes in the active scope."""
-    return {output for n in nodes.values() if n.is_interrupt for output in n.outputs}
+def _get_interrupt_outputs(nodes: dict[str, HyperNode], prefix: str = "") -> set[str]:
+    """Get the resume keys of interrupt nodes in the active scope.
+
+    Top-level interrupts are answered under their output names, interrupts inside
+    nested graphs under dot-separated paths (see ``PauseInfo.response_key``).
+    """
+    outputs = {prefix + output for n in nodes.values() if n.is_interrupt for output in n.outputs}
+    for n in nodes.values():
+        inner = getattr(n, "graph", None)
+        if inner is not None:
+            outputs |= _get_interrupt_outputs(inner._nodes, f"{prefix}{n.name}.")
+    return outputs
 
 
 def _find_internal_override_conflicts(
